@@ -93,9 +93,9 @@ def _p1_int(style, edd, et, typed):
 
 # P1.str: str default over the finite alphabet ------------------------------------------------------------------
 def _p1_str(style, edd, et, n):
-    def body(*idx):
+    def body(i0, i1):
         v = ""
-        for i in idx:
+        for i in (i0, i1):
             v = v + sig(i)
         return check(mk_ir([("a", {"typ": "str", "doc": "first arg", "default": v})]), style, edd, et)
 
@@ -135,14 +135,14 @@ for _s, _edd, _et in CONFIGS:
     for _typed in (True, False):
         if _s == "numpydoc" and not _typed:
             continue  # F21
-        ob("C01", "P1.int.%s.%s" % ("typed" if _typed else "untyped", _t), {"i": R(-20, 20)}, T=200, tier="quick" if _typed or _edd else "thorough", funcs=FUNCS, assumes=[ADHOC_SHIMS_DOC],
+        ob("C01", "P1.int.%s.%s" % ("typed" if _typed else "untyped", _t), {"i": R(-20, 20)}, enum=True, T=200, tier="quick", funcs=FUNCS, assumes=[ADHOC_SHIMS_DOC],
            bound="one parameter with int default in -20..20 (solver-enumerated: the text is realised by int()/float()), type %s" % ("int" if _typed else "absent"),
            )(_p1_int(_s, _edd, _et, _typed))
-    ob("C01", "P1.str2.%s" % _t, {"i0": R(0, len(SIGMA) - 1), "i1": R(0, len(SIGMA) - 1)}, T=400, tier="thorough", funcs=FUNCS, assumes=[ADHOC_SHIMS_DOC],
+    ob("C01", "P1.str2.%s" % _t, {"i0": R(0, len(SIGMA) - 1), "i1": R(0, len(SIGMA) - 1)}, enum=True, T=400, tier="quick", funcs=FUNCS, assumes=[ADHOC_SHIMS_DOC],
        bound="one parameter a:str with a default of 2 characters over the alphabet %r (solver-enumerated)" % SIGMA)(_p1_str(_s, _edd, _et, 2))
     ob("C01", "P1.ret.%s" % _t, {"x": PR, "y": PR}, pre="x != 47 and y != 47", T=300, tier="quick" if _edd and _et else "thorough", funcs=FUNCS, assumes=[ADHOC_SHIMS_DOC],
        bound="return entry bool with description 'the '+X+Y for EVERY printable X, Y except '/' (a documented type-hint trigger)")(_p1_ret(_s, _edd, _et))
-    ob("C01", "P1.two.%s" % _t, {"kind": R(0, 13), "b": BOOL, "i": R(-3, 3)}, T=400, funcs=FUNCS, assumes=[ADHOC_SHIMS_DOC],
+    ob("C01", "P1.two.%s" % _t, {"kind": R(0, 13), "b": BOOL, "i": R(-3, 3)}, enum=True, T=400, funcs=FUNCS, assumes=[ADHOC_SHIMS_DOC],
        bound="two parameters, second with default of kind int(-3..3)/bool/None/0.5/-2.5/1e20/1e-07/-2.5e-07/Optional[float]=1e16 (floats are enumerated: exponent forms with + and -), str defaults that look like numbers/bools under Union[..., str] / str")(_p1_two(_s, _edd, _et))
 
 
@@ -177,9 +177,9 @@ for _s, _edd, _et in CONFIGS:
     _t = _cfg_tag(_s, _edd, _et)
     ob("C01", "P1.dr.%s" % _t, {"i": R(-2, 2), "x": PR}, pre="x != 47", T=500 if _s == "rest" else 240, tier="thorough" if _s == "rest" and _edd else "quick", funcs=FUNCS, assumes=[ADHOC_SHIMS_DOC],
        bound="a:int with default -2..2 followed by a return entry bool with description 'the '+X+'z'")(_p1_dr(_s, _edd, _et))
-    ob("C01", "P1.str1.%s" % _t, {"i0": R(0, len(SIGMA) - 1), "empty": BOOL}, T=200, funcs=FUNCS, assumes=[ADHOC_SHIMS_DOC],
+    ob("C01", "P1.str1.%s" % _t, {"i0": R(0, len(SIGMA) - 1), "empty": BOOL}, enum=True, T=200, funcs=FUNCS, assumes=[ADHOC_SHIMS_DOC],
        bound="a:str with the empty default or a 1-character default over %r" % SIGMA)(_p1_str1(_s, _edd, _et))
-    ob("C01", "K2.names.%s" % _t, {"n0": R(97, 122)}, T=400, tier="thorough", funcs=FUNCS, assumes=[ADHOC_SHIMS_DOC],
+    ob("C01", "K2.names.%s" % _t, {"n0": R(97, 122)}, enum=True, T=400, tier="quick", funcs=FUNCS, assumes=[ADHOC_SHIMS_DOC],
        bound="first parameter named <letter>q for EVERY lower-case letter (names are dict keys: realised, solver-enumerated), followed by a second parameter")(_k2(_s, _edd, _et))
 
 
@@ -202,8 +202,8 @@ def _p1_wrap(style, et, lo, hi):
 
 for _s in ("rest", "google"):
     for _et in (True, False):
-        for _lo, _hi, _tier in ((60, 100, "quick"), (100, 200, "thorough")):
-            ob("C01", "P1.wrap.%s.%s.L%d" % (_s, "types" if _et else "notypes", _lo), {"L": R(_lo, _hi), "neg": BOOL}, tier=_tier, T=400, tpath=60, funcs=FUNCS,
+        for _lo, _hi, _tier in ((60, 100, "quick"), (100, 200, "quick")):
+            ob("C01", "P1.wrap.%s.%s.L%d" % (_s, "types" if _et else "notypes", _lo), {"L": R(_lo, _hi), "neg": BOOL}, enum=True, tier=_tier, T=400, tpath=60, funcs=FUNCS,
                assumes=[ADHOC_SHIMS_DOC, "word_wrap=True: textwrap.fill realises its argument, so the description length is enumerated by the solver (every length in the range)"],
                bound="word_wrap=True, first of two parameters with an int default and a description of EVERY length %d..%d (the 100-column wrap falls at every position of '... Defaults to -42')" % (_lo, _hi),
                )(_p1_wrap(_s, _et, _lo, _hi))
@@ -288,9 +288,49 @@ def _p1_caselen(style, edd, et):
 for _s, _edd, _et in CONFIGS:
     if _s == "numpydoc" and not _et:
         continue
-    ob("C01", "P1.caselen.%s" % _cfg_tag(_s, _edd, _et), {"k": R(0, len(CASELEN) - 1), "dk": R(0, 3)}, T=1500, tpath=60, tier="quick" if _edd and _et else "thorough", funcs=FUNCS,
+    ob("C01", "P1.caselen.%s" % _cfg_tag(_s, _edd, _et), {"k": R(0, len(CASELEN) - 1), "dk": R(0, 3)}, enum=True, T=1500, tpath=60, tier="quick", funcs=FUNCS,
        assumes=[ADHOC_SHIMS_DOC], bound="two defaulted parameters whose descriptions contain ANY of the %d code points whose casefold/upper/lower mapping has a different length "
        "(sharp s, ligatures, dotted capital I, ...; str.casefold realises, so the solver enumerates the table), defaults -5 / True / 'mid' / -0.75 and 12" % len(CASELEN))(_p1_caselen(_s, _edd, _et))
+
+
+# P1.words: descriptions that merely MENTION default-ish words (without being an announcement of a default) ---------------------------------------------------
+WORDS_OK = ("overrides the default backend", "negative means use the library default", "default", "a defaulted value", "value by Default", "fallback when unset", "the to value",
+            "if none the default is used, otherwise this", "Default backend label", "nondefault route", "by default")
+WORDS_F51 = ("the Defaults file to read", "see defaults", "it Defaults")  # known finding F51
+
+
+def _p1_words(style, edd, et, words):
+    def body(w, dk, second):
+        doc = words[0]
+        for k in range(1, len(words)):
+            if w == k:
+                doc = words[k]
+        d, t = -1, "int"
+        if dk == 1:
+            d, t = "tf", "str"
+        elif dk == 2:
+            d, t = True, "bool"
+        elif dk == 3:
+            d, t = 0.5, "float"
+        a, b = ("a", {"typ": t, "doc": doc, "default": d}), ("b", {"typ": "int", "doc": "second arg", "default": 2})
+        return check(mk_ir([b, a] if second else [a, b]), style, edd, et)
+
+    return body
+
+
+for _s, _edd, _et in CONFIGS:
+    if _s == "numpydoc" and not _et:
+        continue
+    ob("C01", "P1.words.%s" % _cfg_tag(_s, _edd, _et), {"w": R(0, len(WORDS_OK) - 1), "dk": R(0, 3), "second": BOOL}, enum=True, T=600, funcs=FUNCS, assumes=[ADHOC_SHIMS_DOC],
+       bound="a defaulted parameter (int / str / bool / float default, first or second) whose description is one of %r - it mentions default-ish words without announcing a default" % (WORDS_OK,),
+       )(_p1_words(_s, _edd, _et, WORDS_OK))
+
+
+def f51_witness(w):
+    return _p1_words("rest", True, True, WORDS_F51)(w, 0, False)
+
+
+ob("C01", "F51.defaults_word", {"w": R(0, len(WORDS_F51) - 1)}, T=60, tier="witness", funcs=FUNCS, twin=False, bound="witness obligation of known finding F51 (not expected to hold)")(f51_witness)
 
 
 # F39: code-quoted expression defaults lose their code quotes in the prose (witness only) --------------------------------------------------
